@@ -5,6 +5,7 @@ import ChiaModel.Drv.C05
 import ChiaModel.Drv.C07
 import ChiaModel.Drv.C08
 import ChiaModel.Drv.C09
+import ChiaModel.Drv.C13
 import ChiaModel.Drv.C15
 import ChiaModel.Drv.C17
 import ChiaModel.Spec.CostTable
@@ -25,6 +26,8 @@ def dispatch (line : String) : String :=
   | "C07" :: rest => C07.handle ("C07" :: rest)
   | "C08" :: rest => C08.handle ("C08" :: rest)
   | "C09" :: rest => C09.handle ("C09" :: rest)
+  | "C13" :: rest => C13.handle ("C13" :: rest)
+  | "C14" :: rest => C13.handle ("C14" :: rest)
   | "C15" :: rest => C15.handle ("C15" :: rest)
   | "C17" :: rest => C17.handle ("C17" :: rest)
   | ["C04", "ucc", op] =>
